@@ -13,7 +13,7 @@ from harness.tlc import validate_traces
 
 
 def grid_str(shape, dtype, chunks):
-    return f"{tuple(int(x) for x in shape)}|{np.dtype(dtype).str if not isinstance(dtype, str) else dtype}|{tuple(tuple(int(c) for c in d) for d in chunks)}"
+    return f"{tuple(int(x) for x in shape)} ; {np.dtype(dtype).name if not isinstance(dtype, str) else dtype} ; {tuple(tuple(int(c) for c in d) for d in chunks)}"
 
 
 def decl_of_array(x):
@@ -39,7 +39,8 @@ def back_of_path(path):
     except Exception:
         return "", None
     try:
-        ch = norm_chunks(z.shape, z.chunks)
+        # for a sharded array the unit cubed reads/writes (and declares as its chunks) is the shard
+        ch = norm_chunks(z.shape, getattr(z, "shards", None) or z.chunks)
     except NotImplementedError:
         ch = tuple(tuple(int(c) for c in d) for d in z.read_chunk_sizes)
     return grid_str(z.shape, z.dtype, ch), z
@@ -120,7 +121,7 @@ def build(prog, spec):
     return cv, it
 
 
-def array_facts(plan, cv, results, outs, resumed=False, pre=None):
+def array_facts(plan, cv, results, outs, resumed=False, pre=None, target_info=None):
     """Facts per plan array: declared / backing / result metadata, content hash, completeness before (resume)."""
     import cubed
     by_name = {}
@@ -147,8 +148,14 @@ def array_facts(plan, cv, results, outs, resumed=False, pre=None):
                 decl = back          # internal intermediate: no user-visible declaration; only the backing grid is known
             if z is not None:
                 try:
-                    grid = [len(d) for d in eval(back.split("|")[2])] if back else []
-                    nkeys = int(np.prod(grid)) if grid else 1
+                    if a.get("kind") != "LazyZarrArray":
+                        # pre-existing target (store / region store): the operation's tasks each write one whole chunk/shard
+                        nkeys = (target_info or {}).get(os.path.normpath(a["path"]), {}).get("nkeys", -1)
+                    elif getattr(z, "shards", None):
+                        nkeys = int(np.prod([-(-n // s) for n, s in zip(z.shape, z.shards)]))
+                    else:
+                        grid = [len(d) for d in eval(back.split(" ; ")[2])] if back else []
+                        nkeys = int(np.prod(grid)) if grid else 1
                 except Exception:
                     nkeys = -1
             if name in res_by_name and name in by_name:
@@ -173,7 +180,7 @@ def run_adversarial(prog, nv, seed, order="shuffle", repeats=0.3, pickle_p=0.0, 
     ref_hashes = None
     if with_reference:
         with traced.Session() as s0:
-            spec0 = s0.spec()
+            spec0 = s0.spec(**prog.get('spec', {}))
             try:
                 cv0, _ = build(prog, spec0)
             except programs.DECLINE:
@@ -189,7 +196,7 @@ def run_adversarial(prog, nv, seed, order="shuffle", repeats=0.3, pickle_p=0.0, 
             p0 = {a["name"]: a["path"] for a in plan0["arrays"]}
             ref_hashes = [content_hash(p0[n]) for n in names0]
     with traced.Session() as s:
-        spec = s.spec()
+        spec = s.spec(**prog.get('spec', {}))
         try:
             cv, it = build(prog, spec)
         except programs.DECLINE:
@@ -201,7 +208,7 @@ def run_adversarial(prog, nv, seed, order="shuffle", repeats=0.3, pickle_p=0.0, 
             return None if isinstance(exc, ValueError) else dict(error=repr(exc)[:300])
         if exc is not None:
             return dict(error=f"task failed during execution: {exc!r}"[:400], plan=plan)
-        facts = array_facts(plan, cv, res, prog["outs"])
+        facts = array_facts(plan, cv, res, prog["outs"], target_info=getattr(it, 'target_info', None))
         if ref_hashes is not None:
             names = sorted(f["name"] for f in facts if f["prod"] and f["path"])
             fin = {f["name"]: content_hash(f["path"]) for f in facts if f["prod"] and f["path"]}
@@ -219,13 +226,13 @@ def run_adversarial(prog, nv, seed, order="shuffle", repeats=0.3, pickle_p=0.0, 
         return dict(doc=doc, meta=meta)
 
 
-def validate(chk, focus, docs, B=40):
-    verdicts = {}
-    for off in range(0, len(docs), B):
-        v, r = validate_traces("TaskTrace", docs[off:off + B], constants=dict(Focus=focus), timeout=1800)
-        chk.add_tlc(f"TaskTrace[{focus}]/batch{off // B}", r)
-        if len(v) != len(docs[off:off + B]):
-            raise MachineryError(f"TaskTrace returned {len(v)} verdicts for {len(docs[off:off + B])} traces\n{r.out[-2500:]}")
-        for t, x in v.items():
-            verdicts[off + t] = x
-    return verdicts
+def validate(chk, focus, docs, B=8):
+    from harness.tlc import validate_traces_parallel
+    # long traces first so that the parallel JVMs are balanced
+    order = sorted(range(len(docs)), key=lambda i: -len(docs[i]["events"]))
+    v, results = validate_traces_parallel("TaskTrace", [docs[i] for i in order], constants=dict(Focus=focus), batch=B, jobs=8)
+    for n, r in enumerate(results):
+        chk.add_tlc(f"TaskTrace[{focus}]/batch{n}", r)
+    if len(v) != len(docs):
+        raise MachineryError(f"TaskTrace returned {len(v)} verdicts for {len(docs)} traces")
+    return {order[k - 1] + 1: x for k, x in v.items()}
